@@ -1,5 +1,6 @@
 CONSTANTS
   Server = {1, 2, 3}
+  Campaigners = {1, 2, 3}
   MaxTerm = 2
   MaxProposals = 0
   MaxCrashes = 0
